@@ -100,6 +100,10 @@ func certApply(op string, rawArgs json.RawMessage) interface{} {
 		return mtlsApply(rawArgs)
 	case "verifytime":
 		return vtimeApply(rawArgs)
+	case "verifychain":
+		return vchainApply(rawArgs)
+	case "clientcfgseq":
+		return ccfgApply(rawArgs)
 	}
 	var a certArgs
 	if err := json.Unmarshal(rawArgs, &a); err != nil {
@@ -449,7 +453,36 @@ func verifyGen(v *verifRun) {
 			v.do(certApply, "mtls", mtlsArgs{Require: req, CAs: cas, Present: []string{"own", "other", "both", "none", "otherca", "expired", "serverusage", "own"}})
 		}
 	}
+	// a server profile that pins one client certificate
+	for _, req := range []bool{true, false} {
+		v.do(certApply, "mtls", mtlsArgs{Require: req, CAs: true, Pinned: true, Present: []string{"ownpinned", "own", "other", "none", "ownpinned"}})
+	}
 	v.do(certApply, "verifytime", vtimeArgs{Role: []string{"server", "client"}[v.rng.Intn(2)]})
+	// presented chains: the expected ID is named by the leaf, or only by a certificate appended to the chain
+	for _, role := range []string{"server", "client"} {
+		for _, ch := range [][][]string{{{"alpha"}, {"bravo"}}, {{"bravo"}, {"alpha"}}, {{"alpha"}}, {{"alpha"}, {"alpha", "bravo"}}, {{"alpha", "bravo"}, {"charlie"}},
+			{{"charlie"}, {"alpha"}, {"bravo"}}} {
+			hc := [][]string{}
+			for _, ids := range ch {
+				h := []string{}
+				for _, id := range ids {
+					h = append(h, hx(id))
+				}
+				hc = append(hc, h)
+			}
+			v.do(certApply, "verifychain", vchainArgs{Chain: hc, Expected: hx("bravo"), Role: role})
+		}
+	}
+	// one client profile, several connections
+	present := [][]string{{hx("nodeB")}, {hx("nodeC")}, {hx("nodeB"), hx("nodeC")}, {}}
+	for _, calls := range [][]ccfgCall{
+		{{hx("nodeB"), "receptor"}, {hx("nodeC"), "receptor"}},
+		{{hx("nodeC"), "receptor"}, {hx("nodeB"), "receptor"}, {hx("nodeC"), "receptor"}},
+		{{hx("nodeB"), "receptor"}, {hx("b.example.com"), "dns"}},
+		{{hx("b.example.com"), "dns"}, {hx("nodeB"), "receptor"}, {hx("c.example.com"), "dns"}},
+	} {
+		v.do(certApply, "clientcfgseq", ccfgArgs{Calls: calls, Present: present})
+	}
 	for i := 0; i < v.n; i++ {
 		a := certArgs{CA: cas[v.rng.Intn(len(cas))], Validity: vals[v.rng.Intn(len(vals))], Usage: usages[v.rng.Intn(4)],
 			Pins: pinSets[v.rng.Intn(len(pinSets))], Role: []string{"server", "client"}[v.rng.Intn(2)], Mode: "receptor",
